@@ -209,6 +209,7 @@ def run_sequences(ctx, wexe, seqs):
 
     def one(seq):
         with vlib.scratch("c13") as d:
+            os.makedirs(os.path.join(d, "dir"), exist_ok=True)     # "dir/file name.txt" is one of the file names set: it must be openable by a run
             res, rc, err = wrap.run_script(wexe, [s[1] for s in seq], d, timeout=120)
         if rc != 0 or any(r is None or "unknown" in r or "exception" in r for r in res):
             return None, (rc, err[-300:], [r for r in res if r is None or "unknown" in (r or {}) or "exception" in (r or {})][:2])
@@ -245,14 +246,19 @@ def coq_check(seqs, obs):
 def shrink(seq, wexe):
     """greedy removal of calls while the disagreement persists"""
     cur = list(seq)
+    o0, _ = run_sequences(None, wexe, [cur])[0]
+    last0 = o0[-1] if o0 else None
+
     def bad(s):
+        # the SAME disagreement must persist: the last call (the one that disagreed) still disagrees and no earlier call does
+        # (removing e.g. the Load of an instance creates a different, artificial disagreement)
         o, e = run_sequences(None, wexe, [s])[0]
-        if o is None:
-            return True
+        if o is None or o[-1] != last0:
+            return False                      # the library must still answer the last call as it did originally
         r, _ = coq_check([s], [o])
-        return r is None or bool(r[0])
+        return r is not None and r[0] == [len(s) - 1]
     i = 0
-    while i < len(cur) and len(cur) > 1:
+    while i < len(cur) - 1 and len(cur) > 1:
         t = cur[:i] + cur[i + 1:]
         # keep Create calls that later ids depend on: ids are positional, so only remove non-Create calls
         if cur[i][0] != "Create" and bad(t):
@@ -353,6 +359,10 @@ def content_bindings(ctx, wexe):
             if rc != 0 or any(r is None for r in res):
                 ctx.violation("content:driver", "driver failed: %s" % err[-200:], {"kind": "ops", "ops": ops})
                 return
+            if res[i0 - 1]["r"] != 0:
+                # the generated input did not run to the end (an ERROR in one of its simulations): the later definitions do not exist; not judged
+                ctx.extra["content_inputs_skipped_error"] = ctx.extra.get("content_inputs_skipped_error", 0) + 1
+                continue
             # documented defaults embed the user number and the instance id: selected_<n>.<id>.out (no -file, no SetSelectedOutputFileName)
             for k, n in enumerate((1, 5, 7)):
                 base = i0 + 10 + 4 * k
